@@ -9,6 +9,7 @@ pub mod hbe2e;
 pub mod heartbeat;
 pub mod hs;
 pub mod machine;
+pub mod obey;
 pub mod slots;
 pub mod smoother;
 pub mod tune;
@@ -29,6 +30,7 @@ pub fn make(name: &str) -> Option<Box<dyn Engine>> {
         "heartbeat" => Some(Box::new(heartbeat::HeartbeatEngine::default())),
         "hs" => Some(Box::new(hs::HsEngine::default())),
         "machine" => Some(Box::new(machine::MachineEngine::default())),
+        "obey" => Some(Box::new(obey::ObeyEngine::default())),
         "parsecheck" => Some(Box::new(framebuf::ParseCheckEngine::default())),
         "slots" => Some(Box::new(slots::SlotsEngine::default())),
         "smoother" => Some(Box::new(smoother::SmootherEngine::default())),
